@@ -898,6 +898,18 @@ impl Format for ast::Expr {
                 })
             },
             ast::Expr::UnOp(op, x) => match op.value {
+                // i32::MIN is the one negative literal that the parser produces directly under a unary operator
+                // (from `-2147483648`); print it in the form it was parsed from.
+                | token![unop -] | token![!] | token![~]
+                if matches!(x.value, ast::Expr::LitInt { value: i32::MIN, format: ast::IntFormat::SIGNED })
+                    => out.fmt_optional_parens(|out| out.fmt((op, format_args!("{}", i32::MIN as u32)))),
+
+                // any other literal that prints with a leading '-' needs parentheses, or else we'd print e.g. `--3`
+                | token![unop -] | token![!] | token![~]
+                if matches!(x.value, ast::Expr::LitInt { value, .. } if value < 0)
+                    || matches!(x.value, ast::Expr::LitFloat { value } if value.is_sign_negative() && !value.is_nan())
+                    => out.fmt_optional_parens(|out| out.fmt((op, "(", SuppressParens(x), ")"))),
+
                 | token![unop -] | token![!] | token![~]
                     => out.fmt_optional_parens(|out| out.fmt((op, x))),
 
